@@ -4,24 +4,33 @@
    (get_lexer, get_parser, get_implicit_environment) and histories of environment creations, tag/filter
    registrations and parses. *)
 From Coq Require Import String.
-From LiquidVerif Require Import Prelude Lex LexSpec Lex_Proofs Lex_Match_Proofs Lex_C10_Proofs Memo Memo_Proofs MacroArgs.
+From LiquidVerif Require Import Prelude Lex LexSpec Lex_Proofs Lex_Match_Proofs Lex_C10_Proofs LexOcc Lex_Occ_Proofs Memo Memo_Proofs MacroArgs.
 Local Open Scope string_scope. Local Open Scope list_scope.
 
 (* Part 1.  Rewriting a template under other delimiters and rendering it with those delimiters gives the same
-   output: for all delimiter sets d1, d2 and templates tp that collide with neither.
-   PARTIAL exactly as C10_whitespace_control_partial (texts over characters that cannot start an opening delimiter;
-   markup kinds of the literal fragment).  Templates with control flow, and texts containing fragments of the
-   delimiters, are covered by the correspondence/oracle run only. *)
+   output: for all delimiter sets d1, d2 and templates tp that collide with neither, where "collide" is the occurrence
+   guard of LexOcc.v (no opening delimiter of the set occurs at a position inside a text, no closing pattern inside the
+   body it closes; see C10_whitespace_control).  Texts may therefore contain fragments of either delimiter set.
+   Templates with control flow are covered by the oracle run only. *)
+Theorem C11_delimiter_equivariance : forall d1 d2 tp,
+  no_collision_occ d1 tp = true -> no_collision_occ d2 tp = true ->
+  render_src d1 (build d1 tp) = render_src d2 (build d2 tp).
+Proof. exact delimiter_equivariance_occ. Qed.
+Print Assumptions C11_delimiter_equivariance.
+
+(* the earlier statement under the alphabet guard, a corollary *)
 Theorem C11_delimiter_equivariance_partial : forall d1 d2 tp,
   no_collision d1 tp = true -> no_collision d2 tp = true ->
   render_src d1 (build d1 tp) = render_src d2 (build d2 tp).
-Proof. exact delimiter_equivariance. Qed.
+Proof.
+  intros d1 d2 tp H1 H2. apply delimiter_equivariance_occ; apply no_collision_occ_of_alphabet; assumption.
+Qed.
 Print Assumptions C11_delimiter_equivariance_partial.
 
 (* ... and both equal the documented rendering, in which no delimiter occurs *)
-Theorem C11_rendering_is_delimiter_free : forall d tp, no_collision d tp = true ->
+Theorem C11_rendering_is_delimiter_free : forall d tp, no_collision_occ d tp = true ->
   render_src d (build d tp) = ROut (spec_render tp).
-Proof. exact whitespace_control_partial. Qed.
+Proof. exact whitespace_control. Qed.
 Print Assumptions C11_rendering_is_delimiter_free.
 
 (* Part 2, the generic lemma.  A memo table all of whose entries satisfy value = f key, consulted with a key
@@ -83,6 +92,12 @@ Definition sample : template :=
     ([], MkShort true (lit "s") false)], lit "  end").
 Example C11_sample_ok : no_collision default_delims sample = true /\ no_collision angle sample = true.
 Proof. split; vm_compute; reflexivity. Qed.
+(* a template whose texts contain fragments of BOTH delimiter sets *)
+Definition mixed : template :=
+  ([(lit "{ < % ", MkOut false (lit " ") 39%N (lit "> }") [] false); (lit " %} >> #", MkShort false (lit " {{ << ") false)], lit " { <").
+Example C11_mixed_ok : no_collision_occ default_delims mixed = true /\ no_collision_occ angle mixed = true
+                       /\ no_collision default_delims mixed = false /\ no_collision angle mixed = false.
+Proof. repeat split; vm_compute; reflexivity. Qed.
 Example C11_sample_sources_differ : build default_delims sample <> build angle sample.
 Proof. vm_compute. discriminate. Qed.
 
